@@ -26,6 +26,10 @@ PINS = {
             ('pyworkers/_remote_pickle/state.py', 'RemoteState')],
     'C15': [('pyworkers/_remote_pickle/state.py', 'RemoteState'),
             ('pyworkers/remote_pickle.py', 'remote_loads'), ('pyworkers/remote_pickle.py', 'remote_load')],
+    'C04': [('pyworkers/thread.py', 'ThreadWorker.is_alive'), ('pyworkers/thread.py', 'ThreadWorker.wait'), ('pyworkers/thread.py', 'ThreadWorker.terminate'),
+            ('pyworkers/process.py', 'ProcessWorker.is_alive'), ('pyworkers/process.py', 'ProcessWorker.wait'), ('pyworkers/process.py', 'ProcessWorker.terminate'),
+            ('pyworkers/persistent_process.py', 'PersistentProcessWorker.wait'), ('pyworkers/persistent_process.py', 'PersistentProcessWorker.close'),
+            ('pyworkers/persistent_process.py', 'PersistentProcessWorker._release_child'), ('pyworkers/utils.py', 'PipeEndpoint')],
     'C05': [('pyworkers/persistent.py', 'PersistentWorker.next_result'), ('pyworkers/persistent.py', 'PersistentWorker.results_iter'),
             ('pyworkers/persistent.py', 'PersistentWorker.call')],
 }
